@@ -138,23 +138,36 @@ func monitorInter(sc iscenario, ups []upstream, looks []lookup, s *vs.Sched) (ke
 		if call == nil {
 			continue
 		}
+		// Which answer sits in the cache when the lookup begins? Two first lookups may race between cache.Get and cache.Add and
+		// then fetch into two different entry objects, only one of which stays in the cache. So: take the last answer for
+		// the key obtained before the lookup began and every answer whose fetch overlapped it (the last "generation");
+		// the cached one is among them. Only if ALL of them are still valid is an upstream query redundant.
+		var gen []upstream
+		var last *upstream
+		for i := range ups {
+			rr := &ups[i]
+			if rr.key == q.key && rr.at < call.start && (last == nil || rr.at > last.at) {
+				last = rr
+			}
+		}
+		if last == nil {
+			continue
+		}
 		for _, rr := range ups {
-			if rr.key != q.key || rr.failed || rr.at >= call.start {
-				continue
+			if rr.key == q.key && rr.at < call.start && rr.at >= last.started {
+				gen = append(gen, rr)
 			}
+		}
+		allValid := true
+		for _, rr := range gen {
 			ttl, bounded := minTTL(versions[rr.version][rr.key])
-			if !bounded || ttl == 0 {
-				continue
+			if rr.failed || !bounded || ttl == 0 || rr.at+time.Duration(ttl)*time.Second <= q.started {
+				allValid = false
 			}
-			removed := false
-			for _, f := range ups {
-				if f.key == q.key && f.failed && f.at > rr.at && f.at <= q.started {
-					removed = true // a failed refresh removes the entry
-				}
-			}
-			if !removed && rr.at+time.Duration(ttl)*time.Second > q.started {
-				return "redundant-upstream-query:" + q.key, fmt.Sprintf("client lookup begun at %v sent an upstream query for %s at %v although the answer obtained at %v (smallest TTL %d s) was still valid; upstream log: %+v", call.start, q.key, q.started, rr.at, ttl, ups)
-			}
+		}
+		if allValid {
+			ttl, _ := minTTL(versions[last.version][last.key])
+			return "redundant-upstream-query:" + q.key, fmt.Sprintf("client lookup begun at %v sent an upstream query for %s at %v although the answer obtained at %v (smallest TTL %d s) was still valid; upstream log: %+v", call.start, q.key, q.started, last.at, ttl, ups)
 		}
 	}
 	for _, l := range looks {
